@@ -298,12 +298,13 @@ class LoadedMessageInterface(Protocol):
         ...
 
     @abstractmethod
-    def contains(self, value: bytes) -> bool:
+    def contains(self, value: bytes, headers: bool = True) -> bool:
         """Check the body of the message for a sub-string. This may be
         optimized to only search headers and ``text/*`` MIME parts.
 
         Args:
             value: The sub-string to find.
+            headers: Whether the message headers are searched as well.
 
         """
         ...
